@@ -1235,6 +1235,39 @@ class Guards:
             out.append((d.bb, v))
         return out
 
+    def _tuple_field_phi(self, e):
+        """e is (the negation of) component k of a local tuple that is built whole in several blocks of one acyclic region (a match whose arms each yield a tuple):
+        [(block, component expression, negated)] -- None when the local is an argument, loop carried, partially assigned, or not built from tuple aggregates only"""
+        neg = False
+        while e[0] == 'un' and e[1] == 'Not':
+            neg = not neg
+            e = e[2]
+        if e[0] == 'fld' and e[1][0] == 'var' and isinstance(e[1][1], int) and len(e[2]) == 1 and str(e[2][0]).isdigit():
+            L, k = e[1][1], int(e[2][0])
+        else:
+            return None
+        if self.ctx.is_arg(L) or self.ctx.partial_defs_of_field(L, str(k)):
+            return None
+        ds = self.ctx.full_defs(L)
+        if len(ds) < 2 or len(ds) > 6:
+            return None
+        if any(kind != 'stmt' or d.rv.k != 'agg' or d.rv.j.get('ak') != 'tuple' or k >= len(d.rv.ops) for kind, d in ds):
+            return None
+        blocks = [d.bb for _, d in ds]
+        if len(set(blocks)) != len(blocks) or (self._in_progress & set(blocks)):
+            return None
+        for b in blocks:
+            r = self._forward_dag(b)
+            if any(o in r for o in blocks if o != b):
+                return None
+        out = []
+        for _, d in ds:
+            val = self.ctx.expr_operand(d.rv.ops[k])
+            if val == e:
+                return None
+            out.append((d.bb, val, neg))
+        return out
+
     def _forward_dag(self, b):
         """blocks reachable from b without taking a back edge (within one loop iteration)"""
         seen = set()
@@ -1265,6 +1298,14 @@ class Guards:
                     sub = self.cond_dnf(subst_phi(e, cl, val), pol, _depth + 1)
                     r.extend(dnf_and([list(c) for c in dnf_t], sub))
                 return r
+        tf = self._tuple_field_phi(e) if _depth < 3 else None
+        if tf is not None:
+            # `let (flag, msg) = match k { A => (c1, ..), B => (c2, ..) }; if flag`: the flag is the component of whichever tuple the path built
+            r = []
+            for b, val, neg in tf:
+                sub = self.cond_dnf(val, pol != neg, _depth + 1)
+                r.extend(dnf_and(self.guard(b), sub))
+            return r
         v = first_var(e)
         if v is not None and _depth < 3:
             pd = self.phi_defs(v)
